@@ -2,7 +2,7 @@
 import json, os, collections
 from . import common as C, solvers as S
 
-IMP = "From Rooc Require Import Base.XQ Model.Exp Model.Sem Model.Builder Tie.TieC16."
+IMP = "From Rooc Require Import Base.XQ Model.Exp Model.Sem Model.Bounds Model.Linearize Model.Builder Model.BuilderOps Tie.TieC16."
 
 
 def describe(f):
@@ -18,7 +18,7 @@ def run(ctx):
     if not ok:
         ctx.broken.append("harness does not build against /repo: " + out[-800:])
         return C.finish(ctx, "proof", {"obligations": 0, "discharged": 0, "checker_cmd": "cargo build", "trusted_base": []}, [])
-    cov = C.proof_step(ctx, "Props/C16.v", ["Proof/XQFacts.v", "Proof/SemFacts.v", "Proof/BuilderSound.v"])
+    cov = C.proof_step(ctx, "Props/C16.v", ["Proof/XQFacts.v", "Proof/SemFacts.v", "Proof/BuilderSound.v", "Proof/BuilderOpsFacts.v"])
     ok, out = C.coq_make(["Tie/TieC16.vo"])
     if not ok:
         ctx.broken.append("model/tie does not compile: " + out[-600:])
@@ -129,6 +129,23 @@ def run(ctx):
         for i in fails[:3]:
             p = C.write_replay(ctx, "counterexample", {"failure": {"kind": "builder-expression-translated-or-evaluated-differently", "input": inputs[i], "case": lines[i][:1200]},
                                                         "what": "builder expression `%s`: into_model's tree or BuilderSolution::eval differs from the proved translation/evaluator" % inputs[i]})
+            ctx.violations.append((p, False))
+    # ---- call sequences: the state machine of ModelBuilder against Model.BuilderOps
+    ops_lines = open(os.path.join(ctx.work, "ops.txt")).read().splitlines()
+    ops_inputs = open(os.path.join(ctx.work, "ops_inputs.txt")).read().splitlines()
+    ofails = []
+    if ok:
+        ofails, oerr = C.eval_cases(ctx, "tieops", IMP, "opscase", ops_lines, fn="ops_failures", shard=150)
+        if oerr:
+            ctx.broken.append("correspondence evaluation (call sequences) failed in Coq: %s" % oerr[0][1][-400:])
+    if ofails:
+        i = ofails[0]
+        mo = C.eval_term(ctx, IMP, "ops_out %s" % ops_lines[i])
+        ctx.broken.append("correspondence ModelBuilder call sequence -> into_model vs Model.BuilderOps broken on %d of %d sequences; first: %s; model says %s"
+                          % (len(ofails), len(ops_lines), ops_inputs[i][:300], " ".join(mo.split())[:500]))
+        for i in ofails[:3]:
+            p = C.write_replay(ctx, "counterexample", {"failure": {"kind": "builder-call-sequence-builds-a-different-model", "input": ops_inputs[i], "case": ops_lines[i][:1500]},
+                                                        "what": "ModelBuilder call sequence `%s`: into_model differs from the model the proved state machine builds" % ops_inputs[i][:300]})
             ctx.violations.append((p, False))
     cnt = rep["counters"]
     cov.update({
